@@ -312,7 +312,7 @@ func (s *sys) applyPH(args []string) string {
 		ph.Signature = flipBit(ph.Signature)
 	case "nokey":
 		ph.ProposerPubKey = nil
-	case "badpcp", "shortpcp", "foreignpcp", "duppcp", "pcpnil3", "pcponlynil3", "emptypcp", "pcpidN", "pcpidlen1":
+	case "badpcp", "shortpcp", "foreignpcp", "duppcp", "pcpnil3", "pcponlynil3", "emptypcp", "pcpidN", "pcpidlen1", "prevlinkB":
 		pcp := ph.Header.PrevCommitProof.Clone()
 		mh := string(ph.Header.PrevBlockHash)
 		switch variant {
@@ -341,6 +341,15 @@ func (s *sys) applyPH(args []string) string {
 			// One target only, and it is not the previous block: nothing at all for the block the header builds on.
 			if h > initialH {
 				pcp.Proofs = map[string][]gcrypto.SparseSignature{"": {w.voteSig('c', h-1, pcp.Round, "", byzIdx)}}
+			}
+		case "prevlinkB":
+			// A header that does not build on the committed block: it names the competing block B of the previous height
+			// as its predecessor. Its previous-commit proof holds the genuine certificate for the committed block and
+			// the Byzantine validator's single precommit for B.
+			if h > initialH {
+				bh := w.header("B", h-1).Hash
+				pcp.Proofs[string(bh)] = []gcrypto.SparseSignature{w.voteSig('c', h-1, pcp.Round, string(bh), byzIdx)}
+				ph.Header.PrevBlockHash = bytes.Clone(bh)
 			}
 		case "emptypcp":
 			pcp.Proofs = map[string][]gcrypto.SparseSignature{}
@@ -814,4 +823,52 @@ func (s *sys) applySMAction(args []string) string {
 	default:
 		return "actions-full"
 	}
+}
+
+// probeCommitAccepted: see runMirror (closing probe).
+func (s *sys) probeCommitAccepted(final snap) (string, bool) {
+	w := s.w
+	if !final.ok || !s.alive() || s.eng != nil {
+		return "", false
+	}
+	h, r := final.voting.Height, final.voting.Round
+	if h < initialH || h+2 > maxObsHeight {
+		return "", false
+	}
+	aHash := string(w.header("A", h).Hash)
+	target := ""
+	for _, ph := range final.voting.ProposedHeaders {
+		if string(ph.Header.Hash) != aHash {
+			target = string(ph.Header.Hash)
+		}
+	}
+	if target == "" {
+		return "", false
+	}
+	var idxs []int
+	var pow uint64
+	for i := 0; i < nVals; i++ {
+		if i == localIdx {
+			continue // the local validator acts through the state machine only
+		}
+		if w.honestMay('c', h, r, i, target) {
+			idxs = append(idxs, i)
+			pow += w.VS(h).Validators[i].Power
+		}
+	}
+	if pow < majority(w.total(h)) {
+		return "", false
+	}
+	var sigs []gcrypto.SparseSignature
+	for _, i := range idxs {
+		sigs = append(sigs, w.voteSig('c', h, r, target, i))
+		s.noteDelivered('c', h, r, target, i)
+	}
+	s.step++
+	s.curEvent = fmt.Sprintf("PROBE:network-precommits-accepted-header:%d/%d:%s", h, r, h8([]byte(target)))
+	msg := tmconsensus.PrecommitSparseProof{Height: h, Round: r, PubKeyHash: string(w.VS(h).PubKeyHash), Proofs: map[string][]gcrypto.SparseSignature{target: sigs}}
+	res := s.call("HandlePrecommitProofs", func(ctx context.Context) string {
+		return s.handler().HandlePrecommitProofs(ctx, msg).String()
+	})
+	return res, true
 }
